@@ -263,3 +263,10 @@ Definition body_params_call_ok (pfnames : list str) (lib : list tpl) (name : str
   match classify_pf pfnames (canon_pf pfnames name) with PfNone => true | _ => false end &&
   forallb (nested_arg_ok pfnames lib name) args &&
   match find_tpl lib name with Some t => body_params_ok pfnames lib name (t_body t) | None => true end.
+
+(** Calls inside the branches of #if.  {{#if: cond | a | b}} where cond is plain and a, b are text and flat calls: the
+    chosen branch with every call in it replaced by its result, trimmed (the other branch does not matter). *)
+Definition if_calls_ok (pfnames : list str) (lib : list tpl) (cond : enc) (more : list enc) : bool :=
+  plain cond && forallb (forallb (flat_item pfnames lib)) more.
+Definition if_calls_result (lib : list tpl) (cond : enc) (more : list enc) : enc :=
+  add_newline (strip_i (page_result lib (match strip_i cond with [] => nth 1 more [] | _ => nth 0 more [] end))).
